@@ -1,4 +1,384 @@
-From DnsV Require Import Model.Svcb Spec.SvcbWire.
+(* Proofs/Svcb: lemmas and proofs of property C18 (Model/Svcb.v against Spec/SvcbWire.v). *)
+From Coq Require Import Permutation Sorted.
+From DnsV Require Import Base.Bytes Base.Text Model.Svcb Spec.SvcbWire Proofs.SvcbLib.
+Require Import ZifyN ZifyNat ZifyBool.
+Ltac Zify.zify_post_hook ::= Z.div_mod_to_equations.
 Open Scope N_scope.
-Lemma placeholder_c18 : key_of VNda = 2.
+
+(* the wire parameter a declared value stands for *)
+Definition enc (v : sval) : param :=
+  match v with
+  | VMand ks => (0, flat_map u16be (sort_by (fun k => k) ks))
+  | VAlpn ids => (1, flat_map (fun a => (nlen a mod 256) :: a) ids)
+  | VNda => (2, [])
+  | VPort p => (3, u16be p)
+  | VIp4 a => (4, concat a)
+  | VEch b => (5, b)
+  | VIp6 a => (6, concat a)
+  | VOpaque k b => (k, b)
+  end.
+
+Definition clean59 (s : bytes) : Prop := has_byte 59 s = false.
+
+(* what FromText guarantees about the declared value of an accepted parameter *)
+Definition good (v : sval) : Prop :=
+  match v with
+  | VMand ks => ks <> [] /\ NoDup ks /\ Forall (fun k => 1 <= k <= 6) ks
+  | VAlpn ids => ids <> [] /\ Forall (fun a => 1 <= nlen a <= 255) ids
+                 /\ Forall (fun a => has_byte 59 a = false /\ has_byte 124 a = false) ids
+                 /\ trim_byte 34 (join 124 ids) = join 124 ids
+  | VNda => True
+  | VPort p => p < 65536
+  | VIp4 a => a <> [] /\ Forall (fun x => length x = 4%nat /\ wf_bytes x) a
+  | VEch b => wf_bytes b
+  | VIp6 a => a <> [] /\ Forall (fun x => length x = 16%nat /\ wf_bytes x) a
+  | VOpaque _ _ => False
+  end.
+
+Lemma key_of_enc : forall v, fst (enc v) = key_of v.
+Proof. destruct v; reflexivity. Qed.
+
+Lemma key_number_eq : forall s, key_number s = key_of_name s.
 Proof. reflexivity. Qed.
+
+Lemma key_of_name_range : forall s k, key_of_name s = Some k -> k <= 6.
+Proof.
+  unfold key_of_name. intros s k H.
+  repeat match type of H with (if ?b then _ else _) = _ => destruct b end;
+    inversion H; subst; lia.
+Qed.
+
+Lemma key_of_name_inv : forall s k, key_of_name s = Some k -> s = name_of_key k.
+Proof.
+  unfold key_of_name. intros s k H.
+  repeat match type of H with (if bytes_eqb ?a ?b then _ else _) = _ =>
+    let E := fresh "E" in
+    destruct (bytes_eqb a b) eqn:E; [apply bytes_eqb_eq in E; inversion H; subst; reflexivity|] end.
+  discriminate.
+Qed.
+
+Lemma key_of_name_of_key : forall k, k <= 6 -> key_of_name (name_of_key k) = Some k.
+Proof.
+  intros k H.
+  assert (E : k = 0 \/ k = 1 \/ k = 2 \/ k = 3 \/ k = 4 \/ k = 5 \/ k = 6) by lia.
+  destruct E as [E|[E|[E|[E|[E|[E|E]]]]]]; subst; reflexivity.
+Qed.
+
+(* ------------------------------------------------------------ mandatory *)
+Lemma mand_loop_ok : forall vals seen w, mand_loop seen vals = Ok w ->
+  exists ks, map key_of_name vals = map Some ks /\ w = flat_map u16be ks /\ NoDup ks
+             /\ Forall (fun k => 1 <= k <= 6 /\ ~ In k seen) ks.
+Proof.
+  induction vals as [|v t IH]; simpl; intros seen w H.
+  - inversion H; subst. exists []. repeat split; constructor.
+  - destruct (key_of_name v) as [k|] eqn:Ek; [|discriminate].
+    destruct (k =? 0) eqn:E0; [discriminate|].
+    destruct (existsb (N.eqb k) seen) eqn:Es; [discriminate|].
+    destruct (mand_loop (k :: seen) t) as [r|e] eqn:El; simpl in H; [|discriminate].
+    inversion H; subst. destruct (IH _ _ El) as (ks & H1 & H2 & H3 & H4).
+    exists (k :: ks). simpl. rewrite H1, H2. repeat split.
+    + constructor; [|exact H3]. intro I. rewrite Forall_forall in H4. destruct (H4 k I) as [_ Hn].
+      apply Hn. left. reflexivity.
+    + constructor.
+      * split; [pose proof (key_of_name_range v k Ek); lia|].
+        intro I. assert (existsb (N.eqb k) seen = true); [|congruence].
+        apply existsb_exists. exists k. split; [exact I|apply N.eqb_refl].
+      * eapply Forall_impl; [|exact H4]. intros a [Ha Hb]. split; [exact Ha|].
+        intro I. apply Hb. right. exact I.
+Qed.
+
+Lemma map_some_perm : forall {A} (l : list (option A)) (r : list A) l',
+  Permutation l' l -> l' = map Some r -> exists r', l = map Some r' /\ Permutation r' r.
+Proof.
+  intros A l r l' P. revert r. induction P; intros r E.
+  - destruct r; [|discriminate]. exists []. split; constructor.
+  - destruct r as [|a r]; [discriminate|]. simpl in E. inversion E; subst.
+    destruct (IHP r eq_refl) as (r' & H1 & H2). exists (a :: r'). subst. split; [reflexivity|constructor; assumption].
+  - destruct r as [|a [|b r]]; try discriminate. simpl in E. inversion E; subst.
+    exists (b :: a :: r). split; [reflexivity|apply perm_swap].
+  - destruct (IHP1 r E) as (r1 & H1 & H2). destruct (IHP2 r1 H1) as (r2 & H3 & H4).
+    exists r2. split; [assumption|eapply Permutation_trans; eassumption].
+Qed.
+
+Lemma mandatory_ok : forall input w, mandatory_marshaller input = Ok w ->
+  exists ks, all_some (map key_number (split_on 124 input)) = Some ks
+             /\ w = flat_map u16be (sort_by (fun k => k) ks) /\ good (VMand ks).
+Proof.
+  unfold mandatory_marshaller. intros input w H.
+  set (toks := split_on 124 input) in *.
+  destruct (mand_loop_ok _ _ _ H) as (ks & H1 & H2 & H3 & H4).
+  (* every token is a known name *)
+  assert (P : Permutation (map key_of_name (sort_by mand_num toks)) (map key_of_name toks))
+    by (apply Permutation_map, sort_by_perm).
+  destruct (map_some_perm _ ks _ P H1) as (ks0 & E0 & P0).
+  exists ks0. split; [| split].
+  - change (map key_number toks) with (map key_of_name toks). rewrite E0. apply all_some_map_some.
+  - (* the emitted order is the sorted order of the declared keys *)
+    subst w. f_equal.
+    assert (Hm : forall l r, map key_of_name l = map Some r -> map mand_num l = r).
+    { clear. induction l as [|x l IH]; intros [|y r] E; simpl in E |- *; try discriminate; [reflexivity|].
+      injection E as E1 E2. unfold mand_num at 1. rewrite E1. f_equal. apply IH. assumption. }
+    rewrite <- (Hm _ _ H1).
+    rewrite (sort_by_map mand_num (fun k => k) mand_num) by reflexivity.
+    rewrite (Hm _ _ E0). reflexivity.
+  - simpl. split; [| split].
+    + intro E. subst ks0. destruct toks eqn:Et; [eapply split_on_nonnil; eauto|discriminate].
+    + eapply Permutation_NoDup; [apply Permutation_sym; exact P0|exact H3].
+    + eapply Permutation_Forall; [apply Permutation_sym; exact P0|].
+      eapply Forall_impl; [|exact H4]. intros a [Ha _]. exact Ha.
+Qed.
+
+(* ------------------------------------------------------------ alpn, port *)
+Lemma alpn_loop_ok : forall ids w, alpn_loop ids = Ok w ->
+  w = flat_map (fun a => (nlen a mod 256) :: a) ids /\ Forall (fun a => 1 <= nlen a <= 255) ids.
+Proof.
+  induction ids as [|a t IH]; simpl; intros w H.
+  - inversion H. split; [reflexivity|constructor].
+  - destruct ((nlen a =? 0) || (255 <? nlen a)) eqn:E; [discriminate|].
+    destruct (alpn_loop t) as [r|e] eqn:El; simpl in H; [|discriminate].
+    inversion H; subst. destruct (IH r eq_refl) as [H1 H2]. subst r.
+    split; [reflexivity|]. constructor; [lia|assumption].
+Qed.
+
+Lemma parse_u16_ok : forall s n m, n < 65536 -> parse_u16 n s = Ok m ->
+  decimal_acc n s = Some m /\ m < 65536.
+Proof.
+  induction s as [|c t IH]; simpl; intros n m Hn H.
+  - inversion H; subst. split; [reflexivity|assumption].
+  - destruct (is_digit c); [|discriminate].
+    destruct (65535 <? n * 10 + (c - 48)) eqn:E; [discriminate|].
+    apply IH; [lia|assumption].
+Qed.
+
+Lemma port_ok : forall input w, port_marshaller input = Ok w ->
+  exists p, decimal input = Some p /\ w = u16be p /\ p < 65536.
+Proof.
+  intros [|c t] w H; [simpl in H; discriminate|].
+  unfold port_marshaller in H. unfold decimal.
+  destruct (parse_u16 0 (c :: t)) as [n|e] eqn:E; cbn [rbind] in H; [|discriminate].
+  inversion H; subst. destruct (parse_u16_ok (c :: t) 0 n ltac:(lia) E) as [H1 H2].
+  exists n. split; [exact H1|split; [reflexivity|exact H2]].
+Qed.
+
+(* ------------------------------------------------------------ addresses *)
+Lemma ip_to4_16 : forall a b, length a = 16%nat -> ip_to4 a = Some b ->
+  a = v4_prefix ++ b /\ length b = 4%nat.
+Proof.
+  intros a b L H.
+  do 16 (destruct a as [|? a]; [discriminate L|]). destruct a; [|discriminate L].
+  unfold ip_to4 in H. cbn [length Nat.eqb firstn forallb nth skipn andb] in H.
+  repeat match type of H with context [N.eqb ?u ?v] =>
+    destruct (N.eqb_spec u v); cbn [andb] in H; [|discriminate H] end.
+  inversion H; subst. split; reflexivity.
+Qed.
+
+Lemma wf_app : forall a b, wf_bytes (a ++ b) <-> wf_bytes a /\ wf_bytes b.
+Proof. intros. unfold wf_bytes. apply Forall_app. Qed.
+
+Section Decl.
+Variable orc : oracles.
+(* net.ParseIP returns nil or a 16-byte slice; base64 decoding returns bytes *)
+Hypothesis Hparse : forall s a, parse_ip orc s = Some a -> length a = 16%nat /\ wf_bytes a.
+Hypothesis Hb64 : forall s x, b64_dec orc s = Some x -> wf_bytes x.
+
+Lemma ip4_loop_ok : forall toks w, ip4_loop orc toks = Ok w ->
+  exists a, all_some (map (decl_v4 (parse_ip orc)) toks) = Some a /\ w = concat a
+            /\ Forall (fun x => length x = 4%nat /\ wf_bytes x) a.
+Proof.
+  induction toks as [|t r IH]; simpl; intros w H.
+  - inversion H. exists []. repeat split; constructor.
+  - unfold decl_v4 at 1. destruct (parse_ip orc t) as [a|] eqn:Ep; [|discriminate].
+    destruct (ip_to4 a) as [b|] eqn:E4; [|discriminate].
+    destruct (ip4_loop orc r) as [x|e] eqn:El; simpl in H; [|discriminate].
+    inversion H; subst. destruct (IH x eq_refl) as (as' & H1 & H2 & H3).
+    rewrite H1. exists (b :: as'). subst x. split; [reflexivity|]. split; [reflexivity|].
+    destruct (Hparse _ _ Ep) as [L W]. destruct (ip_to4_16 a b L E4) as [Ea Lb].
+    constructor; [|assumption]. split; [assumption|]. subst a. apply wf_app in W. tauto.
+Qed.
+
+Lemma ip6_loop_ok : forall toks w, ip6_loop orc toks = Ok w ->
+  exists a, all_some (map (parse_ip orc) toks) = Some a /\ w = concat a
+            /\ Forall (fun x => length x = 16%nat /\ wf_bytes x) a.
+Proof.
+  induction toks as [|t r IH]; simpl; intros w H.
+  - inversion H. exists []. repeat split; constructor.
+  - destruct (has_byte 58 t); simpl in H; [|discriminate].
+    destruct (parse_ip orc t) as [a|] eqn:Ep; [|discriminate].
+    destruct (ip6_loop orc r) as [x|e] eqn:El; simpl in H; [|discriminate].
+    inversion H; subst. destruct (IH x eq_refl) as (as' & H1 & H2 & H3).
+    rewrite H1. exists (a :: as'). subst x. split; [reflexivity|]. split; [reflexivity|].
+    constructor; [apply (Hparse _ _ Ep)|assumption].
+Qed.
+
+Lemma toks_nonnil : forall {A} (f : bytes -> option A) c s a,
+  all_some (map f (split_on c s)) = Some a -> a <> [].
+Proof.
+  intros A f c s a H E. subst a. destruct (split_on c s) as [|p q] eqn:Es; [eapply split_on_nonnil; eauto|].
+  simpl in H. destruct (f p); [|discriminate]. destruct (all_some (map f q)); discriminate.
+Qed.
+
+(* ------------------------------------------------------------ one parameter *)
+Lemma marshal_decl : forall k input w, has_byte 59 input = false -> trim_byte 34 input = input ->
+  marshal orc k input = Ok w ->
+  exists v, decl_value (parse_ip orc) (b64_dec orc) k input = Some v /\ (k, w) = enc v /\ good v.
+Proof.
+  intros k input w Hc Ht H. unfold marshal in H.
+  assert (Hk : k = 0 \/ k = 1 \/ k = 2 \/ k = 3 \/ k = 4 \/ k = 5 \/ k = 6 \/ 6 < k) by lia.
+  destruct Hk as [E|[E|[E|[E|[E|[E|[E|E]]]]]]]; subst.
+  - destruct (mandatory_ok _ _ H) as (ks & H1 & H2 & H3).
+    exists (VMand ks). unfold decl_value. rewrite H1. subst w. repeat split; apply H3.
+  - unfold alpn_marshaller in H. destruct (alpn_loop_ok _ _ H) as [H1 H2].
+    exists (VAlpn (split_on 124 input)). subst w. split; [reflexivity|]. split; [reflexivity|].
+    simpl. split; [apply split_on_nonnil|]. split; [exact H2|]. split.
+    + pose proof (split_pieces_without 59 124 input Hc) as P1.
+      pose proof (split_pieces_clean 124 input) as P2.
+      rewrite Forall_forall in *. intros a Ha. split; [apply P1|apply P2]; assumption.
+    + rewrite join_split. exact Ht.
+  - unfold nodefaultalpn_marshaller in H. destruct input; [|discriminate]. inversion H; subst.
+    exists VNda. repeat split.
+  - destruct (port_ok _ _ H) as (p & H1 & H2 & H3). exists (VPort p). unfold decl_value. rewrite H1.
+    subst w. repeat split. exact H3.
+  - unfold ipv4hint_marshaller in H. destruct (ip4_loop_ok _ _ H) as (a & H1 & H2 & H3).
+    exists (VIp4 a). unfold decl_value. rewrite H1. subst w. repeat split; [|assumption].
+    eapply toks_nonnil; eauto.
+  - unfold ech_marshaller in H. destruct (b64_dec orc input) as [x|] eqn:E; [|discriminate].
+    inversion H; subst. exists (VEch w). unfold decl_value. rewrite E. repeat split. simpl. eapply Hb64; eauto.
+  - unfold ipv6hint_marshaller in H. destruct (ip6_loop_ok _ _ H) as (a & H1 & H2 & H3).
+    exists (VIp6 a). unfold decl_value. rewrite H1. subst w. repeat split; [|assumption].
+    eapply toks_nonnil; eauto.
+  - exfalso. destruct k as [|p]; [lia|]. do 3 (destruct p as [p|p|]; try lia; try discriminate H).
+Qed.
+
+Lemma param_decl : forall s p, has_byte 59 s = false -> param_from_text orc s = Ok p ->
+  exists v, decl_param (parse_ip orc) (b64_dec orc) s = Some v /\ p = enc v /\ good v
+            /\ nlen (snd p) <= 65535.
+Proof.
+  intros s p Hc H. unfold param_from_text in H. unfold decl_param.
+  destruct (cut_at 61 s) as [[k v]|] eqn:Ec; [|discriminate].
+  rewrite key_number_eq. destruct (key_of_name k) as [kn|] eqn:Ek; [|discriminate].
+  destruct (negb (kn =? 2) && match v with [] => true | _ :: _ => false end); [discriminate|].
+  destruct (marshal orc kn (trim_byte 34 v)) as [d|e] eqn:Em; cbn [rbind] in H; [|discriminate].
+  destruct (65535 <? nlen d) eqn:El; [discriminate|]. inversion H; subst p.
+  destruct (cut_at_some _ _ _ _ Ec) as [Es _]. subst s. rewrite has_byte_app in Hc.
+  apply orb_false_iff in Hc. destruct Hc as [_ Hc]. simpl in Hc.
+  destruct (marshal_decl kn (trim_byte 34 v) d) as (w & H1 & H2 & H3);
+    [apply trim_byte_without; exact Hc|apply trim_byte_idem|exact Em|].
+  exists w. split; [exact H1|]. split; [exact H2|]. split; [exact H3|]. simpl. lia.
+Qed.
+
+Lemma has_key_in : forall k l, has_key k l = true <-> In k (map fst l).
+Proof.
+  intros k l. unfold has_key. rewrite existsb_exists. rewrite in_map_iff. split.
+  - intros (p & H1 & H2). exists p. split; [apply N.eqb_eq in H2; exact H2|exact H1].
+  - intros (p & H1 & H2). exists p. split; [exact H2|apply N.eqb_eq; exact H1].
+Qed.
+
+Lemma ft_loop_ok : forall segs acc l, Forall (fun s => has_byte 59 s = false) segs ->
+  ft_loop orc segs acc = Ok l ->
+  exists d, all_some (map (decl_param (parse_ip orc) (b64_dec orc)) (list_segments segs)) = Some d
+            /\ l = acc ++ map enc d /\ Forall good d
+            /\ Forall (fun p => nlen (snd p) <= 65535) (map enc d)
+            /\ (NoDup (map fst acc) -> NoDup (map fst l)).
+Proof.
+  induction segs as [|s r IH]; intros acc l Hc H.
+  - simpl in H. inversion H; subst. exists []. rewrite app_nil_r. repeat split; try constructor. tauto.
+  - inversion Hc; subst. destruct s as [|c0 s0].
+    + simpl in H. inversion H; subst. exists []. rewrite app_nil_r. repeat split; try constructor. tauto.
+    + remember (c0 :: s0) as s eqn:Es.
+      assert (Hl : list_segments (s :: r) = s :: list_segments r) by (subst s; reflexivity).
+      rewrite Hl. assert (Hf : ft_loop orc (s :: r) acc =
+        match param_from_text orc s with
+        | Err e => Err e
+        | Ok p => if has_key (fst p) acc then Err E_DUPKEY else ft_loop orc r (acc ++ [p])
+        end) by (subst s; reflexivity).
+      rewrite Hf in H. clear Hf Hl.
+      destruct (param_from_text orc s) as [p|e] eqn:Ep; [|discriminate].
+      destruct (has_key (fst p) acc) eqn:Ek; [discriminate|].
+      destruct (param_decl s p H1 Ep) as (v & D1 & D2 & D3 & D4).
+      destruct (IH _ _ H2 H) as (d & I1 & I2 & I3 & I4 & I5).
+      exists (v :: d). simpl. rewrite D1, I1. split; [reflexivity|]. split.
+      { subst l p. rewrite <- app_assoc. reflexivity. }
+      split; [constructor; assumption|]. split; [constructor; [subst p; exact D4|exact I4]|].
+      intro Hn. apply I5. rewrite map_app. simpl.
+      apply NoDup_app_comm. simpl. constructor; [|exact Hn].
+      intro I. apply has_key_in in I. congruence.
+Qed.
+
+(* ------------------------------------------------------------ the mandatory check *)
+Definition mand_present (d : list sval) : Prop :=
+  forall ks, In (VMand ks) d -> forall k, In k ks -> In k (map key_of d).
+
+Lemma map_fst_enc : forall d, map fst (map enc d) = map key_of d.
+Proof. intro d. rewrite map_map. apply map_ext. apply key_of_enc. Qed.
+
+Lemma chunks_u16 : forall ks fuel, (length (flat_map u16be ks) <= fuel)%nat ->
+  chunks 2 fuel (flat_map u16be ks) = Ok (map u16be ks).
+Proof.
+  induction ks as [|k ks IH]; intros fuel Hf; [reflexivity|].
+  change (flat_map u16be (k :: ks)) with ((k / 256) mod 256 :: k mod 256 :: flat_map u16be ks) in *.
+  destruct fuel as [|f]; [simpl in Hf; lia|].
+  cbn [chunks firstn skipn length Nat.ltb Nat.leb]. rewrite IH by (simpl in Hf; lia). reflexivity.
+Qed.
+
+Lemma find_key_enc : forall d, Forall good d ->
+  find_key 0 (map enc d) =
+  match find (fun v => key_of v =? 0) d with Some v => Some (snd (enc v)) | None => None end.
+Proof.
+  induction d as [|v d IH]; intro Hg; [reflexivity|]. inversion Hg; subst.
+  unfold find_key in *. simpl. rewrite key_of_enc. destruct (key_of v =? 0); [reflexivity|].
+  apply IH. assumption.
+Qed.
+
+Lemma mand_check_spec : forall d, Forall good d -> NoDup (map key_of d) ->
+  (mand_check (map enc d) = Ok tt /\ mand_present d)
+  \/ (mand_check (map enc d) = Err E_MISSING /\ ~ mand_present d).
+Proof.
+  intros d Hg Hn. unfold mand_check. rewrite find_key_enc by assumption.
+  destruct (find (fun v => key_of v =? 0) d) as [v|] eqn:Ef.
+  - apply find_some in Ef. destruct Ef as [Iv Kv]. apply N.eqb_eq in Kv.
+    rewrite Forall_forall in Hg. pose proof (Hg v Iv) as Gv.
+    destruct v; simpl in Kv; try discriminate; [|simpl in Gv; contradiction].
+    simpl in Gv. destruct Gv as (G1 & G2 & G3). cbn [enc snd].
+    rewrite chunks_u16 by lia. cbn [rbind].
+    set (ks' := sort_by (fun k => k) ks).
+    assert (P : Permutation ks' ks) by apply sort_by_perm.
+    (* the mandatory parameter of the list is this one *)
+    assert (U : forall ks2, In (VMand ks2) d -> ks2 = ks).
+    { intros ks2 I2. clear - Iv I2 Hn. induction d as [|x d IH]; [contradiction|].
+      simpl in Hn. inversion Hn; subst. destruct Iv as [E|Iv]; destruct I2 as [E2|I2]; subst.
+      - inversion E2. reflexivity.
+      - exfalso. apply H1. change 0 with (key_of (VMand ks2)). apply in_map. assumption.
+      - exfalso. apply H1. change (key_of (VMand ks2)) with (key_of (VMand ks)). apply in_map. assumption.
+      - apply IH; assumption. }
+    destruct (forallb (fun c => has_key (be16 c) (map enc d)) (map u16be ks')) eqn:Ea.
+    + left. split; [reflexivity|]. intros ks2 I2 k Ik. rewrite (U ks2 I2) in Ik.
+      rewrite forallb_forall in Ea. specialize (Ea (u16be k)).
+      rewrite be16_u16be in Ea.
+      * rewrite <- map_fst_enc. apply has_key_in. apply Ea. apply in_map.
+        eapply Permutation_in; [apply Permutation_sym; exact P|exact Ik].
+      * rewrite Forall_forall in G3. specialize (G3 k Ik). lia.
+    + right. split; [reflexivity|]. intro Mp.
+      assert (forallb (fun c => has_key (be16 c) (map enc d)) (map u16be ks') = true); [|congruence].
+      apply forallb_forall. intros c Ic. apply in_map_iff in Ic. destruct Ic as (k & Ec & Ik). subst c.
+      assert (Ik' : In k ks) by (eapply Permutation_in; eauto).
+      rewrite be16_u16be by (rewrite Forall_forall in G3; specialize (G3 k Ik'); lia).
+      apply has_key_in. rewrite map_fst_enc. eapply Mp; eauto.
+  - left. split; [reflexivity|]. intros ks I. exfalso.
+    eapply find_none in Ef; [|exact I]. simpl in Ef. discriminate.
+Qed.
+
+(* ------------------------------------------------------------ FromText against the declared values *)
+Theorem from_text_declared : forall t l, from_text orc t = Ok l ->
+  exists d, declared_raw (parse_ip orc) (b64_dec orc) t = Some d
+            /\ l = sort_by (@fst N bytes) (map enc d)
+            /\ Forall good d /\ NoDup (map key_of d) /\ mand_present d
+            /\ Forall (fun p => nlen (snd p) <= 65535) (map enc d).
+Proof.
+  intros t l H. unfold from_text in H.
+  destruct (ft_loop orc (split_on 59 t) []) as [l0|e] eqn:El; cbn [rbind] in H; [|discriminate].
+  destruct (ft_loop_ok _ _ _ (split_pieces_clean 59 t) El) as (d & D1 & D2 & D3 & D4 & D5).
+  simpl in D2. subst l0.
+  assert (Hn : NoDup (map key_of d)) by (rewrite <- map_fst_enc; apply D5; constructor).
+  destruct (mand_check_spec d D3 Hn) as [[M1 M2]|[M1 M2]]; rewrite M1 in H; cbn [rbind] in H; [|discriminate].
+  inversion H; subst l. exists d. unfold declared_raw. repeat split; assumption.
+Qed.
